@@ -253,13 +253,10 @@ func (e *c08Env) runItems(rec *vRecorder, stream string, maxp int, initial uint6
 		}
 		starChan = &c08Chan{id: 0, sc: sc, reg: sc.RegisterLateSequenceClient()}
 	}
-	fail := func(mon, sig, detail string) {
-		if m.failed {
-			return
-		}
-		m.failed = true
-		rec.Fail(mon, sig, map[string]any{"stream": stream, "maxp": maxp, "initial": initial, "items": delivered, "trace": c08ItemsString(delivered)}, detail)
+	m.input = func() any {
+		return map[string]any{"stream": stream, "maxp": maxp, "initial": initial, "items": delivered, "trace": c08ItemsString(delivered), "expanded": c08OpsString(m.hist)}
 	}
+	fail := m.fail
 	for _, it := range items {
 		feed.deliver(it)
 		o := in.observe()
@@ -268,9 +265,6 @@ func (e *c08Env) runItems(rec *vRecorder, stream string, maxp int, initial uint6
 		if it.Typ == "F" {
 			m.hist = append(m.hist, *it.Op)
 			m.after(*it.Op, o)
-			if m.failed {
-				fail("docfeed", "see-first-failure", "")
-			}
 		} else {
 			for _, h := range m.hist {
 				for _, op := range ops {
@@ -345,9 +339,6 @@ func (e *c08Env) runItems(rec *vRecorder, stream string, maxp int, initial uint6
 					m.mustBeAccountedFor(c08Princ, d.Seq, o)
 				}
 			}
-		}
-		if m.failed {
-			fail("docfeed", "see-first-failure", "")
 		}
 		res.obs = append(res.obs, o)
 	}
